@@ -21,6 +21,7 @@ void  *vf_raw(size_t n);                                  /* zero-filled raw sto
 void   vf_fail(const char *why);
 /* virtual file system + stream inspection for API-layer harnesses */
 void   vf_file(const char *name, const char *content);      /* make `name` openable with this content */
+void   vf_unwritable(const char *name);                      /* opening `name` for writing fails */
 long   vf_stream_content(void *istream, char *buf, long cap); /* copy the unread content of an input stream */
 /* lock discipline (Eraser style): every access to [p,p+n) must happen while `mutex` is held (engine B only;
    a no-op natively: violations are confirmed by a multi-threaded stress run, see @opts confirm=stress) */
